@@ -111,6 +111,10 @@ func harnessOverlay(repo, verif string) (map[string][]byte, []string, error) {
 				src, _ = os.ReadFile(tf)
 			}
 			text := strings.Replace(string(src), "package PKG", "package "+pkgName, 1)
+			if pkgName == "meta" && base != "intrinsics" {
+				text = strings.Replace(text, "\t\"github.com/freeconf/yang/meta\"\n", "", 1)
+				text = strings.ReplaceAll(text, "meta.", "")
+			}
 			if pkgName == "node" && base != "intrinsics" {
 				// inside package node the API is unqualified
 				text = strings.Replace(text, "\t\"github.com/freeconf/yang/node\"\n", "", 1)
